@@ -31,6 +31,10 @@ func optCfgRun(args []string) error {
 		opts []participle.Option
 	}
 	lx := participle.Lexer(coreLexer)
+	// (the same token types plus quoted strings, for mappers that rewrite values)
+	lxs := participle.Lexer(lexer.MustSimple([]lexer.SimpleRule{{Name: "Ident", Pattern: `[a-zA-Z]+`}, {Name: "Int", Pattern: `[0-9]+`}, {Name: "String", Pattern: `"(\\.|[^"])*"`},
+		{Name: "Punct", Pattern: `[^\sa-zA-Z0-9#"]`}, {Name: "Comment", Pattern: `#[a-z]*#`}, {Name: "WS", Pattern: `\s+`}}))
+	el := participle.Elide("WS", "Comment")
 	cfgs := []cfg{
 		{"plain", []participle.Option{lx}},
 		{"elide-unknown", []participle.Option{lx, participle.Elide("Nope")}},
@@ -53,9 +57,13 @@ func optCfgRun(args []string) error {
 		{"lookahead-max", []participle.Option{lx, participle.UseLookahead(participle.MaxLookahead)}},
 		{"lookahead-twice", []participle.Option{lx, participle.UseLookahead(3), participle.UseLookahead(1)}},
 		{"lexer-twice", []participle.Option{participle.Lexer(lexer.TextScannerLexer), lx}},
+		{"upper-and-unquote", []participle.Option{lxs, el, participle.Upper("Ident"), participle.Unquote("String")}},
+		{"unquote-and-upper", []participle.Option{lxs, el, participle.Unquote("String"), participle.Upper("Ident")}},
+		{"catchalls-and-typed-mappers", []participle.Option{lxs, el, participle.Map(id), participle.Map(id), participle.Map(id), participle.Upper("Ident"), participle.Unquote("String"), participle.Map(id, "Int")}},
+		{"typed-mappers-three-types", []participle.Option{lxs, el, participle.Map(id, "Int"), participle.Upper("Ident", "Punct"), participle.Unquote("String")}},
 		{"no-options", nil},
 	}
-	inputs := []string{"", "a", "a 1 2 !", " a#x#b ", "1a", "\xff", "a\x00b", "\"s\" 'c' `r`", strings.Repeat("a ", 50)}
+	inputs := []string{"", "a", "a 1 2 !", " a#x#b ", "1a", "\xff", "a\x00b", "\"s\" 'c' `r`", strings.Repeat("a ", 50), "x \"\" y", "\"a\\nb\" q 7", "\"\\q\""}
 	for _, c := range cfgs {
 		var p *participle.Parser[optGrammar]
 		build := runGuarded(func() (res string) {
